@@ -146,7 +146,7 @@ UNDECIDED_PAT = re.compile(r"unwinding assertion|recursion unwinding|unsupported
 def classify_failed(desc: str) -> str:
     """'clause' (a contract clause `Cxx:...`), 'undecided' (tool bound), or 'real-code' (a check inside real code:
     panic, overflow, pointer, index) -- the latter is a violation of the harness's properties."""
-    if re.match(r"C\d\d:", desc):
+    if re.match(r"C\d\d(\+C\d\d)*:", desc):
         return "clause"
     if UNDECIDED_PAT.search(desc):
         return "undecided"
